@@ -3,10 +3,11 @@ import os, json, itertools, time, hashlib
 import concurrent.futures as cf
 import cybuild
 from . import C39_corpus as K
+from . import C39_ext as E
 
 TITLE = "Behaviour is identical across build configurations"
-EXTRACTS = ["CmpFloat"]
-RULE = ("six modules compiled in every cell of a configuration matrix: {C, C++} x {-O0, -O1, -O2, -O3} x feature macros "
+EXTRACTS = ["CmpFloat", "Freelist"]
+RULE = ("seven modules compiled in every cell of a configuration matrix: {C, C++} x {-O0, -O1, -O2, -O3} x feature macros "
         "(PYLONG/UNICODE/PYLIST internals, vectorcall/fastcall, borrowed refs, safe macros/size, type slots/specs, thread "
         "state, Limited API) x string compression x semantics-neutral directives.  c39m: one differential program (closures, "
         "generators, classes, exceptions, literals beyond the string-split limit).  c39cv, c39cmp, c39ar: the sources AND operand pools of "
@@ -17,20 +18,43 @@ RULE = ("six modules compiled in every cell of a configuration matrix: {C, C++} 
         "functions for unicode kinds 1/2/4, bytes/bytearray, list/tuple/dict/set, calls, type slots, exceptions, generators/"
         "coroutines/async generators, pattern matching, argument binding, formatting.  Every cell runs the same tables on "
         "fresh operands; a case is one (cell, function, operand row) compared with the baseline cell; the comparison "
-        "helpers are also compared with the extracted model of the cell's variant (internals on / off)")
+        "helpers are also compared with the extracted model of the cell's variant (internals on / off).  c39z: the extension-"
+        "type life cycle - cdef classes with C attributes of every kind (all integer widths, bint, Py_UCS4, float, double, "
+        "complex, pointers, function pointer, struct, union, array, enum, object / list / dict / str / tuple / extension-typed), "
+        "with and without __cinit__ / __init__ / __dealloc__ / __del__, @freelist(1..8), @final, no_gc, no_gc_clear, vtable, "
+        "__weakref__ / __dict__, cdef subclasses (same size, bigger, with the directive) and Python subclasses (plain, "
+        "__slots__, abstract); programs of create (4 construction paths) / modify / observe / release steps with instance "
+        "counts N-1, N, N+1, N+2 around every freelist size, three release orders, related classes interleaved, gc cycles, "
+        "pickling, copying, weak references; every observation is compared with the base cell, with the state the language "
+        "specifies (zero / None defaults) and, for the freelist classes, with the extracted allocation model.  Feature "
+        "macros: every switch the generated C honours is enumerated from the generated file; each one that builds on this "
+        "CPython has a cell (thorough: one cell per switch; quick: two covering cells), the rest is listed with the reason")
 EXPLANATION = ("theorems (corollaries): where both variants of a helper are modelled they agree — Overflow.c builtin vs portable, "
                "CIntFromPy internals vs non-internals vs Limited-API loop, dict-version cached vs plain global lookup, DivInt "
                "constant vs variable divisor variant, LZSS compression on/off, PyObjectCompare int-int / float-int / int-float "
-               "with CYTHON_USE_PYLONG_INTERNALS on vs off (all operators, all doubles, all ints). partial: every other "
+               "with CYTHON_USE_PYLONG_INTERNALS on vs off (all operators, all doubles, all ints); extension-type allocation with a "
+               "freelist (CYTHON_USE_FREELISTS on / off, CYTHON_USE_TYPE_SPECS on / off, any freelist size and contents, any "
+               "program) observes exactly what fresh zeroed allocation observes, the variant without the memset is refuted, "
+               "object attributes are default in either variant, freecount stays within the array. partial: every other "
                "configuration difference is covered only by the matrix run (testing); the thorough tier measures with gcov which "
                "lines inside macro-guarded regions of the generated C the corpus executes.")
 TRUSTED = ["gcc/g++ 12 as conforming compilers", "CPython 3.12 Limited API headers",
            "the generators and operand pools of props/C02.py, C05.py, C19.py (imported, not copied)",
-           "gcov line/branch counts of the --coverage builds (thorough tier)"]
+           "gcov line/branch counts of the --coverage builds (thorough tier)",
+           "tp_alloc (PyType_GenericAlloc) returns zeroed memory; PyObject_INIT / the tp_new initialisation function touch only "
+           "the object header, the vtable pointer and the object attributes (modelled in M_Freelist.init, not verified)",
+           "props/C39_ext.py expected_state(): the class table that says what state() must return"]
 ASSUMPTIONS = ["cells/modules that do not compile on this platform (reported in the evidence notes) are skipped, not counted as agreement",
                "quick tier: the table modules are built at -O0 and only in the cells base / no_pylong_internals / limited_api "
-               "(+ the call module in no_vectorcall); language, optimisation level, directives and the other macros are varied "
-               "for them in the thorough tier",
+               "(+ the call module in no_vectorcall; + the extension-type module c39z in the two covering cells no_freelists_etc / "
+               "type_specs_module_state, which flip 24 object-model switches at once and do not build c39m); language, optimisation "
+               "level, directives and the other macros are varied for them in the thorough tier, which also has one cell per switch",
+               "extension-type programs: the expected state comes from the class table in props/C39_ext.py; only programs made of "
+               "create / modify / observe / release steps are predicted, programs with gc / pickle / weakref / hook steps are compared "
+               "across cells only; the allocation model is tied on programs over one freelist that start by emptying it (the "
+               "freelist cannot be reset from Python)",
+               "typed memoryview / buffer attributes of extension types are not in the corpus (the memoryview utility code makes "
+               "the module ten times bigger); __Pyx_ClearFreelist (module cleanup) is not exercised",
                "results are compared as type + repr (floats as hex) or exception TYPE; exception messages and object addresses are not compared",
                "CYTHON_USE_EXC_INFO_STACK=0 is not exercised: it is not one of the property's switches, does not compile on "
                "CPython 3.12 without CYTHON_FAST_THREAD_STATE=0 and with it closing a suspended generator segfaults"]
@@ -173,6 +197,11 @@ CALLS = ([["arith", [x]] for x in [0, 1, -1, 5, 2 ** 30, -2 ** 30, 2 ** 31, 2 **
          [["exceptions", [k]] for k in range(4)] + [["consts", []]])
 
 
+def have_refnanny():
+    import glob
+    return bool(glob.glob(os.path.join(cybuild.REPO, "Cython", "Runtime", "refnanny*.so")))
+
+
 def cells(quick):
     base = dict(cplus=False, cflags=["-O1"], macros=[], directives={}, name="base")
     out = [base]
@@ -186,15 +215,22 @@ def cells(quick):
     cell("no_compress", macros=["CYTHON_COMPRESS_STRINGS=0"])
     cell("binding_false_noopt", directives={"binding": False, "always_allow_keywords": False, "optimize.use_switch": False,
                                              "optimize.unpack_method_calls": False, "auto_pickle": False})
+    # ---- the object-model switches (type creation, allocation, finalisation, module init): two covering cells
+    # in the quick tier, one cell per switch in the thorough tier (SINGLE_TOGGLES)
+    cell("no_freelists_etc", macros=list(COVER_A), ext_only=True)
+    cell("type_specs_module_state", macros=list(COVER_B), ext_only=True)
     if quick:
         # budget: the table modules are compiled at -O0 in the quick tier and only in the cells of the feature
         # macros that select helper bodies (language, optimisation level and directives are varied for them in
         # the thorough tier)
         for c in out:
+            c["skip_m"] = bool(c.get("ext_only"))          # (budget; the thorough tier builds c39m in these cells too)
             c["table_cflags"] = ["-O0"]
             c["tables"] = {"base": True, "limited_api": True,
                            "no_pylong_internals": K.OPS_MODULES + ("c39x",),      # (c39y has no int fast paths)
-                           "no_vectorcall": ("c39y",)}.get(c["name"], False)      # (calls are made by c39y only)
+                           "no_vectorcall": ("c39y",),                            # (calls are made by c39y only)
+                           "no_freelists_etc": ("c39z",), "type_specs_module_state": ("c39y", "c39z"),     # (budget: c39y once)
+                           }.get(c["name"], False)
     if not quick:
         cell("O3", cflags=["-O3"])
         cell("no_unicode_internals", macros=["CYTHON_USE_UNICODE_INTERNALS=0"])
@@ -213,13 +249,49 @@ def cells(quick):
         cell("clang", compiler="clang")
         cell("limited_api_cpp", cplus=True, macros=["Py_LIMITED_API=0x030C0000", "CYTHON_LIMITED_API=1"])
         cell("binding_true_kw", directives={"binding": True, "always_allow_keywords": True, "optimize.inline_defnode_calls": False})
+        for name, macros in SINGLE_TOGGLES:
+            if name == "refnanny" and not have_refnanny():
+                continue        # (the module imports Cython.Runtime.refnanny at init; recorded by macro_evidence)
+            cell("only_" + name, macros=list(macros), ext_only=True, cflags=["-O0"])
+        # switches the older cells only have in combination
+        cell("only_avoid_borrowed", macros=["CYTHON_AVOID_BORROWED_REFS=1"], ext_only=True, cflags=["-O0"], ext_tables=("c39z",))
+        cell("only_no_type_slots", macros=["CYTHON_USE_TYPE_SLOTS=0"], ext_only=True, cflags=["-O0"])
         for c in out:
             # the table modules do not depend on the string-table compression; -O2 / C++ -O3 are covered by -O3 / C++ -O1
             c["tables"] = c["name"] not in ("no_compress", "compress_1", "compress_2", "compress_3", "O2", "cpp_O3")     # (bool)
+            if c.get("ext_only"):
+                # the modules with types, calls, generators, module state (only_avoid_borrowed: c39y dies in its first
+                # function because of the known finding below, which would hide the rest of the cell)
+                c["tables"] = c.get("ext_tables", ("c39y", "c39z"))
     return out
 
 
-TABLE_MODS = K.OPS_MODULES + ("c39x", "c39y")
+# the covering cells of the quick tier (every switch below also has its own cell in the thorough tier)
+COVER_A = ("CYTHON_USE_FREELISTS=0", "CYTHON_USE_TP_FINALIZE=0", "CYTHON_UPDATE_DESCRIPTOR_DOC=0", "CYTHON_UNPACK_METHODS=0",
+           "CYTHON_PEP489_MULTI_PHASE_INIT=0", "CYTHON_USE_DICT_VERSIONS=1", "CYTHON_PEP487_INIT_SUBCLASS=0",
+           "CYTHON_AVOID_THREAD_UNSAFE_BORROWED_REFS=1", "CYTHON_USE_PYTYPE_LOOKUP=0", "CYTHON_USE_AM_SEND=0", "CYTHON_VECTORCALL_TPNEW=0",
+           "CYTHON_USE_OWN_PREP_RERAISE_STAR=1", "CYTHON_FAST_GIL=1", "CYTHON_ATOMICS=0", "CYTHON_CCOMPLEX=0", "CYTHON_CLINE_IN_TRACEBACK=0",
+           "CYTHON_WITHOUT_ASSERTIONS=1", "CYTHON_FAST_PYCCALL=0")
+COVER_B = ("CYTHON_USE_TYPE_SPECS=1", "CYTHON_USE_MODULE_STATE=1", "CYTHON_OPAQUE_OBJECTS=1", "CYTHON_USE_SYS_MONITORING=1",
+           "CYTHON_CLINE_IN_TRACEBACK=1", "CYTHON_FAST_PYCALL=0")
+SINGLE_TOGGLES = [("no_freelists", ("CYTHON_USE_FREELISTS=0",)), ("type_specs", ("CYTHON_USE_TYPE_SPECS=1",)),
+                  ("module_state", ("CYTHON_USE_MODULE_STATE=1",)), ("no_tp_finalize", ("CYTHON_USE_TP_FINALIZE=0",)),
+                  ("dict_versions", ("CYTHON_USE_DICT_VERSIONS=1",)), ("no_descr_doc", ("CYTHON_UPDATE_DESCRIPTOR_DOC=0",)),
+                  ("no_unpack_methods", ("CYTHON_UNPACK_METHODS=0",)), ("no_multiphase", ("CYTHON_PEP489_MULTI_PHASE_INIT=0",)),
+                  ("fast_gil", ("CYTHON_FAST_GIL=1",)), ("no_pep487", ("CYTHON_PEP487_INIT_SUBCLASS=0",)),
+                  ("avoid_unsafe_borrowed", ("CYTHON_AVOID_THREAD_UNSAFE_BORROWED_REFS=1",)), ("refnanny", ("CYTHON_REFNANNY=1",)),
+                  ("no_pytype_lookup", ("CYTHON_USE_PYTYPE_LOOKUP=0",)), ("no_am_send", ("CYTHON_USE_AM_SEND=0",)),
+                  ("no_vectorcall_tpnew", ("CYTHON_VECTORCALL_TPNEW=0",)), ("own_reraise_star", ("CYTHON_USE_OWN_PREP_RERAISE_STAR=1",)),
+                  ("opaque_objects", ("CYTHON_OPAQUE_OBJECTS=1",)), ("no_atomics", ("CYTHON_ATOMICS=0",)), ("no_ccomplex", ("CYTHON_CCOMPLEX=0",)),
+                  ("cline_in_tb", ("CYTHON_CLINE_IN_TRACEBACK=1",)), ("no_cline_in_tb", ("CYTHON_CLINE_IN_TRACEBACK=0",)),
+                  ("without_assertions", ("CYTHON_WITHOUT_ASSERTIONS=1",)), ("sys_monitoring", ("CYTHON_USE_SYS_MONITORING=1",)),
+                  ("no_fast_pycall", ("CYTHON_FAST_PYCALL=0",)), ("no_fast_pyccall", ("CYTHON_FAST_PYCCALL=0",))]
+# switches with a cell in the thorough tier only (the others are in COVER_A / COVER_B or in the older quick cells)
+THOROUGH_ONLY = {"CYTHON_REFNANNY", "CYTHON_USE_UNICODE_INTERNALS", "CYTHON_USE_PYLIST_INTERNALS", "CYTHON_AVOID_BORROWED_REFS",
+                 "CYTHON_ASSUME_SAFE_MACROS", "CYTHON_ASSUME_SAFE_SIZE", "CYTHON_USE_TYPE_SLOTS", "CYTHON_FAST_THREAD_STATE"}
+
+
+TABLE_MODS = K.OPS_MODULES + ("c39x", "c39y", "c39z")
 
 
 def _translate(args):
@@ -242,7 +314,7 @@ def cell_modules(c, sources):
         return list(sources)
     if not tm:
         return ["c39m"]
-    return ["c39m"] + [m for m in sources if m in tm]
+    return ([] if c.get("skip_m") else ["c39m"]) + [m for m in sources if m in tm]
 
 
 def build_matrix(ctx, cs, sources, jobs=12):
@@ -298,7 +370,12 @@ def corpus_spec(ctx, quick):
     tables = dict(ops_tab)
     tables.update(x_tab)
     calls = [[m, f, mode, t] for m, f, mode, t in ops_calls] + [[m, f, mode, t] for m, f, mode, t in K.x_functions()]
-    return dict(ops_src, c39x=K.XSRC, c39y=K.YSRC), ops_py, {"support": K.SUPPORT, "tables": tables, "calls": calls}
+    # c39z: one row per life-cycle program
+    zprogs = E.programs(ctx.rng, quick)
+    tables["ZP"] = [[p] for _st, p in zprogs]
+    calls.append(["c39z", "z_run", "rows", ["ZP"]])
+    spec = {"support": K.SUPPORT, "tables": tables, "calls": calls, "zp_strata": [st for st, _p in zprogs]}
+    return dict(ops_src, c39x=K.XSRC, c39y=K.YSRC, c39z=E.ZSRC), ops_py, spec
 
 
 def run_worker(ctx, wd, spec, tag):
@@ -338,6 +415,8 @@ def row_input(spec, call, k):
     if mode == "same":
         return {"a": ts[0][k][0], "b": ts[0][k][1], "same_object": ts[0][k][2]}
     if mode == "rows":
+        if tnames == ["ZP"]:
+            return {"args": ts[0][k], "stratum": spec["zp_strata"][k]}
         return {"args": ts[0][k]}
     if mode == "zip":
         return {"args": [t[k] for t in ts]}
@@ -397,6 +476,11 @@ def check_cmp_model(ctx, spec, results):
 
 NO_SLOTS_CELLS = ("limited_api", "limited_api_cpp", "no_type_slots", "no_internals_at_all")
 NO_KW_CELLS = ("binding_false_noopt",)
+NO_PICKLE_CELLS = ("binding_false_noopt",)
+NO_SLOTS_STATIC_CELLS = ("only_no_type_slots", "no_internals_at_all")       # CYTHON_USE_TYPE_SLOTS=0 with static type objects
+WEAKLIST_FIXED = False        # set True after proposed_fixes/C39-weakref_slot_ignored_without_type_slots_and_type_specs.diff
+AB_NEXTREF_FIXED = False      # set True after proposed_fixes/C39-avoid_borrowed_refs_dict_next_inverted_null_check.diff
+NO_FINALIZE_CELLS = ("limited_api", "limited_api_cpp", "no_freelists_etc", "only_no_tp_finalize")     # CYTHON_USE_TP_FINALIZE == 0
 
 
 def classify(cell, module, func, inp, base_res, cell_res):
@@ -414,7 +498,97 @@ def classify(cell, module, func, inp, base_res, cell_res):
             and sorted(json.dumps(a) for a in args) == ['{"f": "-0x0.0p+0"}', '{"i": "0"}']:
         # PyNumberBinop: `int 0 + float` returns the float operand; the Limited API build calls PyNumber_Add
         return "int_zero_plus_negative_zero_float"
+    if module == "c39z" and cell in NO_FINALIZE_CELLS and args and any(st[0] == "new" and st[2] == "ZDel" for st in args[0]) \
+            and any(st[0] == "dlog" for st in args[0]):
+        # __del__ of a cdef class is the tp_finalize slot, which exists only #if CYTHON_USE_TP_FINALIZE
+        return "cdef_class_del_not_called_without_tp_finalize"
+    if module == "c39z" and cell in NO_SLOTS_STATIC_CELLS and not WEAKLIST_FIXED and args and any(st[0] == "weakref" for st in args[0]):
+        # tp_weaklistoffset is only assigned #if CYTHON_USE_TYPE_SLOTS, the __weaklistoffset__ member only read with type specs
+        return "weakref_slot_ignored_without_type_slots_and_type_specs"
+    if module == "c39z" and cell in NO_PICKLE_CELLS and str(inp.get("stratum", "")).startswith("pickle/"):
+        # auto_pickle=False: no __reduce_cython__ is generated, pickle.dumps raises TypeError
+        return "auto_pickle_false_extension_type_not_picklable"
     return "differs_from_base:" + cell
+
+
+def cell_alloc_cfg(c):
+    """(CYTHON_USE_FREELISTS, CYTHON_USE_TYPE_SPECS) of a cell, as ModuleSetupCode.c resolves them on CPython 3.12"""
+    mac = dict(m.split("=", 1) if "=" in m else (m, "1") for m in c["macros"])
+    limited = "CYTHON_LIMITED_API" in mac or "Py_LIMITED_API" in mac
+    use_fl = int(mac.get("CYTHON_USE_FREELISTS", "1"))
+    specs = 1 if limited else int(mac.get("CYTHON_USE_TYPE_SPECS", "0"))
+    return use_fl, specs
+
+
+def check_ext(ctx, spec, tabres, cs, status):
+    """c39z: (a) the generated tp_new / tp_dealloc of every freelist class has the modelled shape (tie of the model to
+    the code: freelist size and the memset flag are READ from the text), (b) every cell against the class table
+    (property oracle), (c) every cell against the extracted model run with the cell's configuration (tie)"""
+    import glob
+    ci = next(i for i, c in enumerate(spec["calls"]) if c[0] == "c39z")
+    progs = [row[0] for row in spec["tables"]["ZP"]]
+    strata = spec["zp_strata"]
+    # (a)
+    gen = None
+    for path in sorted(glob.glob(os.path.join(ctx.workdir, "tr*", "c39z.c*"))):
+        info = E.parse_generated(open(path, errors="replace").read())
+        for cls, d in sorted(info.items()):
+            ctx.case("tie/tp_new-text/" + cls, {"file": os.path.basename(os.path.dirname(path)) + "/" + os.path.basename(path), "class": cls},
+                     sig=(path, cls))
+            if not d["shape_ok"]:
+                ctx.corr_break("generated tp_new / tp_dealloc of a freelist class", {"file": path, "class": cls}, d["why"] or "unrecognised",
+                               "freecount > 0 & CHECK_TYPE -> pop -> [memset] -> PyObject_INIT ... else __Pyx_AllocateExtensionType; "
+                               "dealloc: freecount < N & CHECK_TYPE -> push")
+            elif d["cap"] != E.FREELISTS[cls]:
+                ctx.corr_break("freelist size in generated tp_dealloc", {"file": path, "class": cls}, d["cap"], E.FREELISTS[cls])
+        key = {cls: (d["cap"], d["memset"]) for cls, d in info.items()}
+        if gen is not None and key != gen:
+            ctx.corr_break("tp_new text differs between translations", {"file": path}, key, gen)
+        gen = gen or key
+    if gen is None:
+        ctx.corr_break("generated c39z source", {}, "not found", "tr*/c39z.c")
+        return
+    caps = {cls: (v[0] if v[0] is not None else E.FREELISTS[cls]) for cls, v in gen.items()}
+    memsets = {cls: v[1] for cls, v in gen.items()}
+    ctx.extra["freelist_classes"] = {cls: {"size": caps[cls], "memset_in_tp_new": memsets[cls]} for cls in sorted(gen)}
+    expected = [E.expected_trace(p) for p in progs]
+    exp_enc = [None if e is None else E.enc(e) for e in expected]
+    model = ctx.model("freelist")
+    cfgs = {c["name"]: cell_alloc_cfg(c) for c in cs}
+    # the model once per distinct configuration
+    lines, where = [], {}
+    for cfg in sorted(set(cfgs[n] for n in tabres if n in cfgs)):
+        for k, p in enumerate(progs):
+            ml = E.model_line(p, cfg, caps, memsets)
+            if ml is not None:
+                where[(cfg, k)] = (len(lines), ml[2])
+                lines.append(ml[1])
+    answers = model.batch(lines) if lines else []
+    nfail, nbreak = {}, 0
+    for name, rows in tabres.items():
+        got = rows[ci] if ci < len(rows) else None
+        if got is None or name not in cfgs:
+            continue
+        for k, p in enumerate(progs):
+            st = strata[k]
+            if exp_enc[k] is not None:
+                ctx.count("oracle/%s/%s" % (name, st.split("/")[0]), 1, distinct_sigs=[(name, k)])
+                if got[k] != exp_enc[k]:
+                    klass = "ext_type_state_not_as_specified:" + st.split("/")[0]
+                    nfail[klass] = nfail.get(klass, 0) + 1
+                    if nfail[klass] <= 3:
+                        ctx.fail(klass, {"cell": name, "module": "c39z", "func": "z_run", "stratum": st, "args": [p]}, got[k][:400], exp_enc[k][:400],
+                                 note="first difference " + E.first_difference(got[k], exp_enc[k]) +
+                                      " ; C attributes of a new instance must be 0 / NULL, object attributes None")
+            w = where.get((cfgs[name], k))
+            if w is not None:
+                ans = answers[w[0]]
+                ctx.count("model-tie/%s/freelist-alloc" % name, 1)
+                pred = None if ans.startswith("!") else E.enc(E.model_trace(ans, w[1]))
+                if pred != got[k] and nbreak < 5:
+                    nbreak += 1
+                    ctx.corr_break("freelist_alloc:%s" % name, {"cell": name, "stratum": st, "args": [p], "model": lines[w[0]][:300]},
+                                   got[k][:300], "model: " + (ans[:100] if pred is None else pred[:300]))
 
 
 def run(ctx):
@@ -470,7 +644,11 @@ def run(ctx):
             inp = {"cell": name, "call": f, "args": a}
             ctx.case("cell/" + name, inp, sig=(name, f, json.dumps(a, default=str)))
             if x != y:
-                ctx.fail("differs_from_base:" + name, inp, y[:300], x[:300])
+                klass = "differs_from_base:" + name
+                if name == "only_avoid_borrowed" and f == "call_binding" and not AB_NEXTREF_FIXED:
+                    # __Pyx_PyDict_NextRef, CYTHON_AVOID_BORROWED_REFS variant: inverted NULL checks (f(*a, **kw) from compiled code)
+                    klass = "avoid_borrowed_refs_dict_next_inverted_null_check"
+                ctx.fail(klass, inp, y[:300], x[:300])
 
     brows, bok, blast, berr = tres["base"]
     if not bok:
@@ -507,8 +685,12 @@ def run(ctx):
                         note = ""
                         if pyrows and ci < len(pyrows) and pyrows[ci] is not None:
                             note = "CPython running the same source: %s" % pyrows[ci][k][:200]
+                        if m == "c39z":
+                            note = "first difference (cell <> base) " + E.first_difference(b[k], a[k])
                         ctx.fail(klass, inp, b[k][:300], a[k][:300], note=note)
     check_cmp_model(ctx, spec, {k: v for k, v in tabres.items()})
+    check_ext(ctx, spec, tabres, cs, status)
+    macro_evidence(ctx, cs, status, sources)
     ctx.extra["cells_compared"] = sorted(results)
     ctx.extra["cells_skipped"] = skipped
     ctx.extra["table_functions"] = len(spec["calls"])
@@ -516,6 +698,69 @@ def run(ctx):
     ctx.extra["t_total_s"] = round(time.time() - t0, 1)
     if not quick:
         coverage_report(ctx, sources, spec)
+
+
+# ---- feature macros -------------------------------------------------------------------------------------
+# switches that cannot be given a cell on this platform (CPython 3.12, gcc), with the reason
+NOT_VARIED = {
+    "CYTHON_USE_UNICODE_WRITER": "forced to 0 by ModuleSetupCode.c on CPython >= 3.11 (#undef before the default)",
+    "CYTHON_USE_SYS_MONITORING": "needs the CPython 3.13 sys.monitoring C API (property C45 models it)",
+    "CYTHON_USE_EXC_INFO_STACK": "=0 does not compile on 3.12 without CYTHON_FAST_THREAD_STATE=0 and then closing a suspended generator "
+                                 "segfaults; not a CPython configuration",
+    "CYTHON_NO_PYINIT_EXPORT": "hides PyInit_<module>: the module cannot be imported",
+    "CYTHON_LIMITED_API": "varied together with Py_LIMITED_API (cells limited_api, limited_api_cpp)",
+    "CYTHON_COMPRESS_STRINGS": "varied (cells no_compress, compress_1..3)",
+    "CYTHON_FREETHREADING_COMPATIBLE": "only read by free-threaded CPython (Py_GIL_DISABLED); this is a GIL build",
+    "CYTHON_MODULE_STATE_LOOKUP_THREAD_SAFE": "only read with CYTHON_USE_MODULE_STATE on a free-threaded build",
+    "CYTHON_UNSAFE_IGNORE_PYMUTEX_ABI_COMPATIBILITY": "free-threaded builds only",
+    "CYTHON_USE_CPP_STD_MOVE": "C++11 detail of temporaries of C++ class type; the corpus has no C++ classes",
+    "CYTHON_DEBUG_VISIT_CONST": "debug aid of the traverse functions (prints), no behaviour",
+    "CYTHON_CLINE_IN_TRACEBACK_RUNTIME": "default of CYTHON_CLINE_IN_TRACEBACK, which is varied",
+    "CYTHON_TRACE": "tracing / profiling hooks belong to property C45", "CYTHON_TRACE_NOGIL": "property C45",
+    "CYTHON_PROFILE": "property C45", "CYTHON_PROFILE_REUSE_FRAME": "property C45", "CYTHON_PROFILE_REUSE_CODEOBJ": "property C45",
+    "CYTHON_IMMORTAL_CONSTANTS": "=1 does not compile on CPython 3.12.1 (_Py_IMMORTAL_INITIAL_REFCNT undeclared; 3.12 has _Py_IMMORTAL_REFCNT)",
+    "CYTHON_REFNANNY": "the module imports Cython.Runtime.refnanny at init; that extension module is not built in this checkout",
+}
+# compiler-attribute / spelling macros: no behaviour to compare
+ATTRIBUTE_MACROS = ("CYTHON_EXTERN_C", "CYTHON_INLINE", "CYTHON_RESTRICT", "CYTHON_UNUSED", "CYTHON_UNUSED_VAR", "CYTHON_MAYBE_UNUSED_VAR",
+                    "CYTHON_NCP_UNUSED", "CYTHON_FALLTHROUGH", "CYTHON_SMALL_CODE", "CYTHON_THREAD_LOCAL", "CYTHON_UNLIKELY", "CYTHON_LIKELY")
+
+
+def overridable_macros(c_text):
+    """every CYTHON_* macro the generated file lets the user define (#ifndef X / !defined(X) / #ifdef X / defined(X))"""
+    import re
+    return sorted(set(re.findall(r"(?:#\s*ifn?def\s+|defined\s*\(\s*)(CYTHON_[A-Za-z0-9_]+)", c_text)))
+
+
+def macro_evidence(ctx, cs, status, sources):
+    """which feature switches of the generated C have a cell (and built), which cannot, which are unaccounted for"""
+    import glob
+    seen = set()
+    for path in glob.glob(os.path.join(ctx.workdir, "tr*", "c39*.c")):
+        seen.update(overridable_macros(open(path, errors="replace").read()))
+    varied, failed = {}, {}
+    for c in cs:
+        built = [m for m in cell_modules(c, sources) if not status[c["name"]].get(m)]
+        for mac in c["macros"]:
+            name = mac.split("=")[0]
+            (varied if built else failed).setdefault(name, []).append(c["name"])
+    out = {"varied": {k: sorted(v) for k, v in sorted(varied.items())}, "not_varied": {}, "attribute_macros": [], "unaccounted": []}
+    for name in sorted(seen):
+        if name in varied:
+            continue
+        if name in failed:
+            out["not_varied"][name] = "cell(s) %s did not build on this platform" % ", ".join(failed[name])
+        elif name in THOROUGH_ONLY and ctx.tier == "quick":
+            out["not_varied"][name] = "varied in the thorough tier only"
+        elif name in NOT_VARIED:
+            out["not_varied"][name] = NOT_VARIED[name]
+        elif name in ATTRIBUTE_MACROS:
+            out["attribute_macros"].append(name)
+        else:
+            out["unaccounted"].append(name)
+    ctx.extra["feature_macros"] = out
+    if out["unaccounted"]:
+        ctx.note("feature macros of the generated C without a cell and without a recorded reason: " + ", ".join(out["unaccounted"]))
 
 
 VARIED_MACROS = ["CYTHON_USE_PYLONG_INTERNALS", "CYTHON_USE_UNICODE_INTERNALS", "CYTHON_USE_PYLIST_INTERNALS", "CYTHON_VECTORCALL",
